@@ -336,6 +336,8 @@ package message
 //@   ensures h.publisher != nil ==> calls(PC) == old(calls(PC)) + 1 [publisher-closed-once-when-the-subscription-ends]
 //@   ensures h.publisher == nil ==> calls(PC) == old(calls(PC))
 //@   ensures wgtoken(h.runningHandlersWg) == old(wgtoken(h.runningHandlersWg)) [every-token-added-was-handed-to-an-invocation]
+//@   ensures spawned("(*handler).handleMessage") == old(spawned("(*handler).handleMessage")) + recvs(h.messagesCh) - old(recvs(h.messagesCh)) [every-message-taken-from-the-subscriber-is-handed-to-an-invocation]
+//@   inv loop 2: spawned("(*handler).handleMessage") == old(spawned("(*handler).handleMessage")) + recvs(h.messagesCh) - old(recvs(h.messagesCh)) && recvs(h.messagesCh) >= old(recvs(h.messagesCh)) && old(recvs(h.messagesCh)) >= 0 [one-invocation-per-message-taken-so-far]
 //@   panics-ensures calls(PC) == old(calls(PC)) + 1 && panicked(PC, old(calls(PC)))
 
 //@ spec dapp(d PublisherDecorator, p Publisher) Publisher
@@ -454,7 +456,16 @@ package message
 
 //@ func (*Router).RunHandlers$1
 //@   ghost waits Router.handlersLock
-//@   requires r != nil && h != nil
+//@   ghost owns h.stopped
+//@   requires r != nil && h != nil && cancel != nil && ctx != nil && logger != nil && h.stopped != nil && !closed(h.stopped)
+//@   assume r.handlersLock != nil && r.middlewaresLock != nil && r.handlersWg != nil && wgtoken(r.handlersWg) >= 1 [ASSUMED-the-router-is-built-and-the-token-AddHandler-added-for-this-handler-is-this-goroutines-to-return]
+//@   assume h.runningHandlersWg != nil && h.runningHandlersWgLock != nil && h.messagesCh != nil && h.handlerFunc != nil && h.subscriber != nil && h.stopFn != nil && h.routersCloseCh != nil [ASSUMED-the-handler-was-wired-by-AddHandler-and-RunHandlers]
+//@   assume forall i int :: 0 <= i && i < len(r.middlewares) ==> r.middlewares[i].Handler != nil [ASSUMED-registered-middlewares-are-functions]
+//@   assume forall m HandlerMiddleware, f HandlerFunc :: m != nil && f != nil ==> app(m, f) != nil [ASSUMED-a-middleware-returns-a-handler]
+//@   callee CANCEL = cancel : total
+//@   maypanic
+//@   ensures closed(h.stopped) [Stopped-is-closed-once-the-handler-has-ended-whatever-state-the-router-is-in]
+//@   ensures calls(CANCEL) == old(calls(CANCEL)) + 1 [the-subscription-context-is-released]
 
 //@ func (*Router).RunHandlers
 //@   ghost waits Router.handlersLock
